@@ -22,12 +22,14 @@ OPERATORS = {'add': operator.add, 'subtract': operator.sub, 'multiply': operator
              'greater_equal': operator.ge, 'less_equal': operator.le, 'bitwise_and': operator.and_, 'bitwise_or': operator.or_,
              'matmul': operator.matmul, 'negative': operator.neg, 'positive': operator.pos, 'absolute': abs, 'invert': operator.invert}
 # operations whose floating point result is not the exactly rounded rational even for dyadic data
-INEXACT = {'sqrt', 'norm', 'inv', 'det', 'interp', 'reciprocal', 'hypot', 'arctan2'} | set(TRANS)
+# (a quotient is exactly rounded by numpy, but nutils may rewrite a / b into a * b**-1 and the like: not reproducible to the last bit)
+INEXACT = {'sqrt', 'norm', 'inv', 'det', 'interp', 'reciprocal', 'hypot', 'arctan2', 'true_divide'} | set(TRANS)
 # operations that depend discontinuously on their (float) operands
 DISCONT = {'floor_divide', 'mod', 'divmod', 'greater', 'less', 'equal', 'not_equal', 'greater_equal', 'less_equal', 'sign', 'searchsorted',
-           'logical_and', 'logical_or', 'logical_xor', 'logical_not', 'any', 'all', 'choose', 'take', 'getitem'}
+           'logical_and', 'logical_or', 'logical_xor', 'logical_not', 'any', 'all', 'choose', 'take', 'getitem', 'power'}
 # for these only the listed operand positions (0-based) are discontinuous (the index operands)
-DISCONT_OPERANDS = {'choose': (0,), 'take': (1,), 'getitem': (1, 2, 3)}
+# (power: a negative base with an exponent that is not exactly an integer is nan)
+DISCONT_OPERANDS = {'choose': (0,), 'take': (1,), 'getitem': (1, 2, 3), 'power': (1,)}
 LETTERS = ' ijklmn'
 
 
